@@ -58,6 +58,11 @@ def templates():
         ('macro-param-is-const', 'kk = 3\ndef m kk {\n;kk\n}\nm 1\n', True, 'kk'),
         ('macro-recursion', 'def recmac {\nrecmac\n}\nrecmac\n', True, 'recmac'),
         ('macro-mutual-recursion', 'def ma {\nmb\n}\ndef mb {\nma\n}\nma\n', True, None),
+        ('macro-recursion-through-rep', 'def recrep {\nrep(1, i) recrep\n}\nrecrep\n', True, 'recrep'),
+        ('macro-recursion-through-rep-with-arg', 'def recarg x {\nrep(2, i) recarg x+i\n}\nrecarg 0\n', True, 'recarg'),
+        ('macro-mutual-recursion-through-rep', 'def ma {\nmb\n}\ndef mb {\nrep(1, i) ma\n}\nma\n', True, None),
+        ('macro-recursion-through-nested-reps', 'def ra {\nrep(1, i) rb i\n}\ndef rb x {\nrep(1, j) ra\n}\nra\n', True, None),
+        ('macro-recursion-in-namespace', 'ns n {\ndef r {\n.r\n}\n}\nn.r\n', True, None),
         ('macro-segment-inside', 'def m {\nsegment 0\n}\nm\n', True, 'segment'),
         ('macro-reserve-inside', 'def m {\nreserve w\n}\nm\n', True, 'reserve'),
         ('label-duplicate', 'duplab:\n;\nduplab:\n;\n', True, 'duplab'),
